@@ -19,14 +19,15 @@ Proof.
   apply String.eqb_eq in Hn. apply Z.eqb_eq in Hcd. subst. exact Hin.
 Qed.
 
-(* a structure outside the discrepancy list is declared within its reference dimension *)
+(* a structure outside the discrepancy list is declared within its reference dimension (or enforces the
+   dimension-dependent lower bound of its parameter) *)
 Lemma table_dim_ok e r :
-  In e cov_table -> lookup (ce_name e) ref_table = Some r -> r_known r = true ->
-  ~ In (ce_name e, 1%Z) known_discrepancies -> dim_le (ce_maxdim e) (r_maxdim r) = true.
+  In e cov_table -> lookup (ce_name e) ref_table = Some r ->
+  ~ In (ce_name e, 1%Z) known_discrepancies -> chk_dim e r = true.
 Proof.
-  intros He Hl Hk Hn.
-  destruct (dim_le (ce_maxdim e) (r_maxdim r)) eqn:E; [reflexivity|]. exfalso. apply Hn.
-  apply (table_entry_ok e He). unfold failures. rewrite Hl. unfold chk_dim. rewrite Hk, E. cbn. left. reflexivity.
+  intros He Hl Hn.
+  destruct (chk_dim e r) eqn:E; [reflexivity|]. exfalso. apply Hn.
+  apply (table_entry_ok e He). unfold failures. rewrite Hl, E. cbn. left. reflexivity.
 Qed.
 
 (* every structure of the factory is known to the reference *)
